@@ -54,4 +54,13 @@ CHECKS = {
         ],
         assumptions=SIM_ASSUMPTIONS,
     ),
+    "C11": dict(
+        level="model_checking",
+        rule="hook status(6) x live-vs-cached parent(5: same, spec edited, labels edited, recreated with new UID, gone) x existing status(3) x real conflicts caused between GET and PUT(0,1,2,4) x injected fault on the status path(5) x child reconciliation ok/fails; "
+             "plus the finalize path (finalized x live edited x foreign finalizer); every case distinct, one real sync each",
+        units=[
+            dict(pkg=COMPOSITE, test="TestVerifC11", shards=dict(quick=8, thorough=16), budget=dict(quick=300, thorough=900)),
+        ],
+        assumptions=SIM_ASSUMPTIONS + ["conflicts are caused (a real external edit between the controller's GET and PUT), never fabricated; client-go's real 10/50/250 ms conflict back-off runs but is never used as an oracle"],
+    ),
 }
